@@ -17,6 +17,12 @@ def ordInt : Ordering → Int
 /-- `cmp.Compare` on strings: byte-wise lexicographic -/
 def cmpCompare (a b : Text) : Int := if a < b then -1 else if b < a then 1 else 0
 
+/-- `cmp.Compare` on unsigned integers -/
+def cmpCompareNat (a b : Nat) : Int := if a < b then -1 else if b < a then 1 else 0
+
+/-- `cmp.Or(x, y)`: the first argument that is not zero -/
+def cmpOr (x y : Int) : Int := if x != 0 then x else y
+
 /-- `filepath.Abs` of a path that is absolute already: `Clean`, no error (the cache files of
 `cacheFileFromEtag` are absolute: `Model/Confine.lean`) -/
 def absOfAbsolute (p : Text) : Option Text := some (Path.clean p)
